@@ -43,6 +43,7 @@ class Project:
         self.model = Model(world, dofiles_absent)
         self.env = base_env(self.bindir, self.home)
         self.env["RV_TRACE"] = str(self.trace)
+        self.env["RV_ROOT"] = os.path.realpath(str(self.p))    # scripts name their target relative to the project root in traces
         if not log_mode:
             self.env["REDO_LOG"] = "0"
         if extra_env:
